@@ -156,6 +156,14 @@ pub fn run(tier: Tier) -> Report {
             sep: "",
         },
         Family {
+            // literals that carry lexical errors with non-empty ranges (overflow) or positions
+            name: "error-carrying-literals",
+            alpha: vec!["a", ";", "99999999999", "0xFFFFFFFFF", "0x", "'", "'a", "1"],
+            max_text: tier.pick(3, 4),
+            max_repl: 1,
+            sep: " ",
+        },
+        Family {
             name: "token-soup",
             alpha: SIGMA_TOK.to_vec(),
             max_text: tier.pick(2, 3),
